@@ -145,6 +145,9 @@ type Cluster struct {
 	// EventsToAll makes PushEvent send on every started connection, registered or not
 	// (a misbehaving node).
 	EventsToAll bool
+	// SupportedFor, when set, gives the SUPPORTED multimap of one node (nodes of different
+	// versions or configurations advertise different things).
+	SupportedFor func(h *Host) map[string][]string
 	// CompressEvents makes pushed events compressed on connections that negotiated compression.
 	CompressEvents bool
 	// SystemFateFn, when set, decides the fate of each system reply.
@@ -354,8 +357,12 @@ func (cl *Cluster) handle(sc *SConn, frame []byte) {
 	cl.wireChecks(sc, rq)
 	switch rq.Header.Opcode {
 	case cqlspec.OpOptions:
-		sc.Advertised = cl.Supported["COMPRESSION"]
-		cl.Send(sc, rec, &cqlspec.Response{Op: cqlspec.OpSupported, Supported: cl.Supported}, cl.systemFate(sc, rec), "SUPPORTED")
+		sup := cl.Supported
+		if cl.SupportedFor != nil {
+			sup = cl.SupportedFor(sc.Host)
+		}
+		sc.Advertised = sup["COMPRESSION"]
+		cl.Send(sc, rec, &cqlspec.Response{Op: cqlspec.OpSupported, Supported: sup}, cl.systemFate(sc, rec), "SUPPORTED")
 	case cqlspec.OpStartup:
 		sc.Compression = rq.Options["COMPRESSION"]
 		// the STARTUP reply itself is never compressed
